@@ -185,7 +185,118 @@ class MGen(object):
         self.seen.pop()
         return c
 
+    # ---- shape families: deep / rare constellations the random grammar reaches too seldom ---------------------------
+    def _assign(self, n):
+        return {'k': 'assign', 'name': self.bound(n), 'site': self.site()}
+
+    def _read(self, *names):
+        return {'k': 'read', 'atoms': [[n, self.rid()] for n in names]}
+
+    def _call(self, n):
+        return {'k': 'call', 'name': n, 'rid': self.rid()}
+
+    def _def(self, name, params, body, gl=(), nl=(), **kw):
+        d = {'k': 'def', 'name': name, 'site': self.site(), 'params': params, 'gl': list(gl), 'nl': [], 'force_nl': list(nl), 'want_nl': False,
+             'decos': [], 'ret': [], 'async': self.rng.random() < 0.1, 'body': body}
+        d.update(kw)
+        return d
+
+    def _param(self, form, n, dflt=None):
+        return [form, n, self.site(), [[dflt, self.rid()]] if dflt else [], []]
+
+    def family(self):
+        rng = self.rng
+        v, w = rng.sample(self.names, 2) if len(self.names) >= 2 else (self.names[0], self.names[0])
+        kind = rng.choice(['nonlocal', 'nonlocal', 'params', 'classinfunc', 'global', 'comp'])
+        body = []
+        if rng.random() < 0.5:
+            body.append(self._assign(v))
+        if kind == 'nonlocal':
+            # f1 owns v (parameter or assignment, before or after the nested def); f3, two levels down, rebinds it
+            as_param = rng.random() < 0.4
+            late = not as_param and rng.random() < 0.4
+            inner3 = [self._read(v), self._assign(v), self._read(v)]
+            if rng.random() < 0.5:
+                inner3 = [self._read(v), {'k': 'if', 'test': [], 'body': [self._assign(v)], 'orelse': []}, self._read(v)]
+            f3 = self._def('f3', [], inner3, nl=[v])
+            mid = [f3]
+            if rng.random() < 0.5:
+                mid.insert(0, self._assign(w))
+            mid += [self._call('f3'), self._read(v)]
+            direct = rng.random() < 0.35            # one level only
+            f2 = self._def('f2', [self._param('pos', w)] if rng.random() < 0.3 else [], mid)
+            b1 = []
+            if not as_param and not late:
+                b1.append(self._assign(v))
+            if direct:
+                b1 += [f3]
+                if late:
+                    b1.append(self._assign(v))
+                b1 += [self._call('f3'), self._read(v)]
+            else:
+                b1 += [f2]
+                if late:
+                    b1.append(self._assign(v))
+                b1 += [self._call('f2'), self._read(v)]
+            body += [self._def('f1', [self._param('pos', v)] if as_param else [], b1), self._call('f1')]
+        elif kind == 'params':
+            forms = ['posonly', 'pos', 'posdef', 'var', 'kwonly', 'kwdef', 'kw']
+            pick = [f for f in forms if rng.random() < 0.6] or ['posonly']
+            names = (self.names * 3)[:]
+            ps = []
+            used = []
+            for f in pick:
+                c = [n for n in self.names if n not in used]
+                if not c:
+                    break
+                n = rng.choice(c)
+                used.append(n)
+                ps.append(self._param(f, n, dflt=(v if f in ('posdef', 'kwdef') else None)))
+            if rng.random() < 0.5:
+                self.seen.append(set(used))
+                lam = {'k': 'lambda', 'name': self.bound('f1'), 'site': self.site(), 'params': ps, 'atoms': [[n, self.rid()] for n in used] + self.atoms(0, 1)}
+                self.seen.pop()
+                body += [self._assign(v), lam, self._call('f1')]
+            else:
+                body += [self._assign(v), self._def('f1', ps, [self._read(*used)] + self.block('function', 1, set(), 0, 2)), self._call('f1')]
+        elif kind == 'classinfunc':
+            # methods of a class written inside a function see the function's variables, not the class's
+            meth = self._def('f2', [self._param('pos', w)], [self._read(v, w)] + ([self._read('f1')] if rng.random() < 0.3 else []))
+            cls_body = []
+            if rng.random() < 0.5:
+                cls_body.append(self._assign(v))
+            cls_body += [meth, self._call('f2')]
+            if rng.random() < 0.5:
+                cls_body.append(self._read(v))
+            self.nk += 1
+            cls = {'k': 'class', 'name': 'K%d' % self.nk, 'site': self.site(), 'bases': [], 'kw': [], 'decos': [], 'body': cls_body}
+            if rng.random() < 0.4:
+                self.nk += 1
+                cls = {'k': 'class', 'name': 'K%d' % self.nk, 'site': self.site(), 'bases': [], 'kw': [], 'decos': [], 'body': [cls]}
+            as_param = rng.random() < 0.5
+            b1 = ([] if as_param else [self._assign(v)]) + [cls, self._read(v)]
+            body += [self._def('f1', [self._param(rng.choice(['pos', 'kwonly', 'posonly']), v)] if as_param else [], b1), self._call('f1')]
+        elif kind == 'global':
+            f2 = self._def('f2', [], [self._read(v)])
+            b1 = [self._assign(v), f2, self._call('f2')]
+            if rng.random() < 0.5:
+                b1.insert(0, self._read(v))
+                body = [self._assign(v)]
+            body += [self._def('f1', [], b1, gl=[v]), self._call('f1'), self._read(v)]
+        else:
+            comp = {'k': 'comp', 'form': rng.choice(['list', 'set', 'dict', 'gen']), 'name': v, 'site': self.site(),
+                    'iter': [[v, self.rid()]], 'cond': [[w, self.rid()]] if rng.random() < 0.5 else [], 'elt': [[v, self.rid()], [w, self.rid()]]}
+            inner = [self._assign(w), comp, self._read(v, w)]
+            if rng.random() < 0.5:
+                self.nk += 1
+                inner = [self._assign(w), {'k': 'class', 'name': 'K%d' % self.nk, 'site': self.site(), 'bases': [], 'kw': [], 'decos': [],
+                                            'body': [self._assign(v), comp, self._read(v)]}]
+            body += [self._assign(v), self._assign(w), self._def('f1', [], inner), self._call('f1')]
+        return body + self.block('module', 2, set(), 0, 3)
+
     def program(self):
+        if self.rng.random() < 0.3:
+            return self.family()
         pre = []
         for n in self.names:
             if self.rng.random() < 0.45:
@@ -216,7 +327,7 @@ def fix_nonlocals(body, rng, enclosing=None, gen=None):
         k = s['k']
         if k == 'def':
             pn = {p[1] for p in s['params']}
-            s['nl'] = []
+            s['nl'] = [n for n in s.get('force_nl', []) if enclosing and n in enclosing and n not in pn]
             if s.get('want_nl') and enclosing:
                 c = sorted(n for n in enclosing if n not in pn and n not in s['gl'])
                 if c:
@@ -605,6 +716,66 @@ def enumerate_cpython(R, limit=600):
     return results
 
 
+def mentions(body):
+    """every identifier a body mentions anywhere (reads, bindings, declarations), nested scopes included"""
+    out = set()
+    for s in body:
+        k = s['k']
+        for key in ('atoms', 'test', 'iter', 'cond', 'elt', 'decos', 'ret', 'bases', 'kw'):
+            for a in s.get(key) or []:
+                out.add(a[0])
+        if 'name' in s:
+            out.add(s['name'])
+        for p in s.get('params') or []:
+            out.add(p[1])
+            for a in p[3] + p[4]:
+                out.add(a[0])
+        out |= set(s.get('gl') or []) | set(s.get('nl') or [])
+        for key in ('body', 'orelse'):
+            if s.get(key):
+                out |= mentions(s[key])
+    return out
+
+
+def pep709_corner(body, infunc=False):
+    """CPython 3.12 inlines comprehensions (PEP 709): the target of a comprehension written in a function F becomes a
+    local of F for the scopes nested in F, so a nested function's free / nonlocal reference to that name denotes F's
+    (mostly unbound) cell instead of an outer variable.  Programs that depend on that corner are outside the model."""
+    def comp_targets(b):
+        t = set()
+        for s in b:
+            if s['k'] == 'comp':
+                t.add(s['name'])
+            elif s['k'] in ('if', 'for'):
+                t |= comp_targets(s['body']) | comp_targets(s.get('orelse') or [])
+        return t
+
+    def nested_mentions(b):
+        m = set()
+        for s in b:
+            if s['k'] in ('def', 'class'):
+                m |= mentions(s['body'])
+                for p in s.get('params') or []:
+                    m.add(p[1])
+                m |= set(s.get('gl') or []) | set(s.get('nl') or [])
+            elif s['k'] == 'lambda':
+                m |= {a[0] for a in s['atoms']} | {p[1] for p in s['params']}
+            elif s['k'] in ('if', 'for'):
+                m |= nested_mentions(s['body']) | nested_mentions(s.get('orelse') or [])
+        return m
+    if infunc and comp_targets(body) & nested_mentions(body):
+        return True
+    for s in body:
+        if s['k'] == 'def' and pep709_corner(s['body'], True):
+            return True
+        if s['k'] == 'class' and pep709_corner(s['body'], False):
+            return True
+        if s['k'] in ('if', 'for'):
+            if pep709_corner(s['body'], False) or pep709_corner(s.get('orelse') or [], False):
+                return True
+    return False
+
+
 def binding_positions(source):
     """[(line, col, name, kind)] of every binding occurrence, from the rendered text"""
     import ast
@@ -685,6 +856,8 @@ def generate(rng, max_depth=3):
     g = MGen(rng, max_depth=max_depth, names=rng.choice([NAMES, NAMES, ['a', 'b'], ['a', 'b', 'c']]))
     body = g.program()
     fix_nonlocals(body, rng, None, g)
+    if pep709_corner(body):
+        return None
     R = render(body)
     try:
         compile(R.source, '<mscope>', 'exec')
